@@ -6,6 +6,9 @@
   The model is tied to the C code by the differential check in checks/c16.py.
 -/
 import FerretVerif.Proofs.Limbs
+import FerretVerif.Proofs.LimbsDiv
+import FerretVerif.Proofs.LimbsShift
+import FerretVerif.Proofs.LimbsText
 
 namespace FerretVerif.C16
 open FerretVerif.Limbs
@@ -43,6 +46,71 @@ theorem parse_step_exact (B base : Nat) (hB : 0 < B) (v : List Nat) (d : Nat) :
 /-- limbs → text, one digit step: division by a small divisor is exact -/
 theorem decimal_step_exact (B d : Nat) (hd : 0 < d) (v : List Nat) :
     val B (divSmall B d v).1 * d + (divSmall B d v).2 = val B v ∧ (divSmall B d v).2 < d := divSmall_spec B d hd v
+
+
+/-- unsigned long division (bit-serial): exact quotient and remainder -/
+theorem divmod_unsigned_exact (w : Nat) (hw : 0 < w) (numer denom : List Nat) (hl : numer.length = denom.length)
+    (hn : Wf (2 ^ w) numer) (hd : Wf (2 ^ w) denom) (hd0 : val (2 ^ w) denom ≠ 0) :
+    let r := divModU w numer denom
+    r.1 = true ∧ val (2 ^ w) r.2.1 = val (2 ^ w) numer / val (2 ^ w) denom
+      ∧ val (2 ^ w) r.2.2 = val (2 ^ w) numer % val (2 ^ w) denom := divModU_spec w hw numer denom hl hn hd hd0
+
+/-- signed comparison decides the order of the two's-complement values -/
+theorem cmp_signed_exact (B : Nat) (a b : List Nat) (hl : a.length = b.length) (ha : Wf B a) (hb : Wf B b) :
+    cmpS B a b = compare (toInt B a) (toInt B b) := cmpS_spec B a b hl ha hb
+
+/-- signed multiplication: the two's-complement product modulo 2^(n·w) -/
+theorem mul_signed_exact (w : Nat) (hw : 0 < w) (a b : List Nat) (hl : a.length = b.length)
+    (ha : Wf (2 ^ w) a) (hb : Wf (2 ^ w) b) :
+    val (2 ^ w) (mulS (2 ^ w) a b)
+      = ((toInt (2 ^ w) a * toInt (2 ^ w) b) % (((2 ^ w) ^ a.length : Nat) : Int)).toNat := mulS_val w hw a b hl ha hb
+
+/-- signed division truncates toward zero (MIN / -1 wraps), modulo 2^(n·w) -/
+theorem div_signed_truncates (w : Nat) (hw : 0 < w) (a b : List Nat) (hl : a.length = b.length)
+    (ha : Wf (2 ^ w) a) (hb : Wf (2 ^ w) b) (hb0 : toInt (2 ^ w) b ≠ 0) :
+    val (2 ^ w) (divS w a b)
+      = ((Int.tdiv (toInt (2 ^ w) a) (toInt (2 ^ w) b)) % (((2 ^ w) ^ a.length : Nat) : Int)).toNat :=
+  divS_val w hw a b hl ha hb hb0
+
+/-- signed remainder has the sign of the dividend; it is always exact -/
+theorem mod_signed_exact (w : Nat) (hw : 0 < w) (a b : List Nat) (hl : a.length = b.length)
+    (ha : Wf (2 ^ w) a) (hb : Wf (2 ^ w) b) (hb0 : toInt (2 ^ w) b ≠ 0) :
+    toInt (2 ^ w) (modS w a b) = Int.tmod (toInt (2 ^ w) a) (toInt (2 ^ w) b) := modS_toInt w hw a b hl ha hb hb0
+
+/-- exponentiation by squaring: base^e modulo 2^(n·w), for every exponent value -/
+theorem pow_unsigned_exact (w : Nat) (hw : 0 < w) (base e : List Nat) (hbw : Wf (2 ^ w) base) (hew : Wf (2 ^ w) e) :
+    val (2 ^ w) (powU w base e) = (val (2 ^ w) base ^ val (2 ^ w) e) % (2 ^ w) ^ base.length := powU_val w hw base e hbw hew
+
+theorem pow_signed_exact (w : Nat) (hw : 0 < w) (base e : List Nat) (hbw : Wf (2 ^ w) base) (hew : Wf (2 ^ w) e) :
+    val (2 ^ w) (powS w base e) =
+      if isNeg (2 ^ w) e then 0 else (val (2 ^ w) base ^ val (2 ^ w) e) % (2 ^ w) ^ base.length := powS_val w hw base e hbw hew
+
+/-- shifts, for every shift count (≤ 0, inside, ≥ width) -/
+theorem shl_exact (w : Nat) (hw : 0 < w) (a : List Nat) (ha : Wf (2 ^ w) a) (s : Int) :
+    val (2 ^ w) (shl w a s) =
+      if s ≤ 0 then val (2 ^ w) a else (val (2 ^ w) a * 2 ^ s.toNat) % (2 ^ w) ^ a.length := shl_val w hw a ha s
+
+theorem shr_exact (w : Nat) (hw : 0 < w) (a : List Nat) (ha : Wf (2 ^ w) a) (s : Int) :
+    val (2 ^ w) (shr w a s) = if s ≤ 0 then val (2 ^ w) a else val (2 ^ w) a / 2 ^ s.toNat := shr_val w hw a ha s
+
+/-- arithmetic right shift is floor division of the signed value (0 ≤ s; a negative count on a negative
+    operand is undefined behaviour in the C code and outside the property) -/
+theorem sar_exact (w : Nat) (hw : 0 < w) (a : List Nat) (ha : Wf (2 ^ w) a) (s : Int) (hs : 0 ≤ s) :
+    toInt (2 ^ w) (sar w a s) = toInt (2 ^ w) a / 2 ^ s.toNat := sar_val w hw a ha s hs
+
+/-- decimal text round trip, unsigned and signed: parsing the printed text gives the limbs back -/
+theorem decimal_roundtrip_unsigned (B n : Nat) (hB : 0 < B) (v : List Nat) (hv : Wf B v) (hn : v.length = n)
+    (h80 : val B v < 10 ^ 80) : fromString B n false (toDecimal B v).toList = v := fromString_toDecimal B n hB v hv hn h80
+
+theorem decimal_roundtrip_signed (B n : Nat) (hB : 1 < B) (v : List Nat) (hv : Wf B v) (hn : v.length = n)
+    (hw : B ^ n ≤ 10 ^ 80) : fromString B n true (toStringS B true v).toList = v := fromString_toStringS_signed B n hB v hv hn hw
+
+/-- the printed digits are the decimal digits of the value -/
+theorem decimal_digits_value (B : Nat) (hB : 0 < B) (fuel : Nat) (work : List Nat) (h : val B work < 10 ^ fuel) :
+    (toDecimalDigits B fuel work []).foldl (fun a d => 10 * a + d) 0 = val B work := toDecimalDigits_value B hB fuel work h
+
+-- the 80-digit bound of the C buffer is met by 256-bit values
+example : (2 ^ 64) ^ 4 ≤ 10 ^ 80 := by decide
 
 -- non-vacuity: concrete 3-limb operands at base 2^64 satisfy the hypotheses (and exercise carry/borrow chains)
 example : Wf (2 ^ 64) [0, 0, 0] ∧ Wf (2 ^ 64) [1, 2 ^ 64 - 1, 0] ∧ [0, 0, 0].length = [1, 2 ^ 64 - 1, 0].length := by
